@@ -4,23 +4,84 @@ package c20
 
 // Grammar-based generator of .api programs (generation is separate from execution: it only produces
 // op text). Every statement kind, grouped and single declarations, nested / anonymous struct types,
-// arrays / maps / pointers, comments in the positions the grammar allows, random layout; plus mutated
-// (mostly invalid) variants.
+// arrays / maps / pointers, random layout, and comments in every legal position: every separator
+// between two tokens has a slot name ("field.type-tag.map", "svc.item-item.resp", ...) and can carry
+// each comment kind its layout class admits (inline block, trailing block, trailing line, head line,
+// head block, head block on the token's line, multi-line block). The positions / comment forms / literals
+// on which the UNCHANGED formatter already breaks the property (found with the probe, C20_PROBE=1) are
+// generated in separate streams, one per known defect class (`class=` in the section configuration, see
+// c20Classes); the driver reports their failures as `[known-class <id>] ...`. Plus mutated (mostly
+// invalid) variants of every other program.
 
 import (
 	"fmt"
+	"os"
+	"sort"
 	"strings"
 
 	"github.com/zeromicro/go-zero/internal/verifh"
 )
 
+type cmKind int
+
+const (
+	kIB cmKind = iota // /* c */ between two tokens of one line
+	kTB               // /* c */ after a token, then a line break
+	kTL               // // c    after a token (then a line break)
+	kHL               // // c    on a line of its own in front of the next token
+	kHB               // /* c */ on a line of its own in front of the next token
+	kHS               // /* c */ at the start of the next token's line
+	kML               // block comment spanning several lines, on lines of its own
+	nKinds
+)
+
+var kindNames = [...]string{"ib", "tb", "tl", "hl", "hb", "hs", "ml"}
+
+type forced struct {
+	slot string
+	kind cmKind
+}
+
 type gen struct {
-	r        *verifh.Rng
-	comments int // 0 none, 1 some, 2 many
-	tricky   bool
-	tiny     bool
-	pct      bool // allow '%' in strings
-	ncomment int
+	r          *verifh.Rng
+	comments   int // 0 none, 1 sparse, 2 dense
+	tricky     bool
+	tiny       bool
+	pct        bool // allow '%' in strings
+	ncomment   int
+	force      *forced        // probe mode: comments only (and always) at this slot / kind
+	hits       int            // number of forced comments written
+	slots      map[string]int // slot/kind -> number of comments written there
+	only       string         // when set: restrict the program to this statement kind
+	class      string         // "" = main stream, else the known defect class this program exercises (c20Classes)
+	starSlash  bool           // block comments in which a '/' follows a '*'
+	multiLine  bool           // block comments that span several lines
+	ctlLit     bool           // tab / line-break characters inside string, raw-string and tag literals
+	trailBlank bool           // blanks or a CR between a line comment and the line break
+}
+
+// slotClass: the known defect class a comment at this slot belongs to ("" = none).
+func slotClass(slot string) string {
+	switch slot {
+	case "route.path-req", "route.path-returns", "route.req-returns":
+		return "route-comment"
+	case "svc.empty-body":
+		return "empty-body-comment"
+	}
+	if strings.HasPrefix(slot, "dt.") || strings.HasPrefix(slot, "req.") || strings.HasPrefix(slot, "resp.") {
+		return "inner-comment"
+	}
+	return ""
+}
+
+// innerSlot: a slot inside a data type or a request / response body. In the main stream these stay on one
+// line and carry only inline block comments; line breaks and the other comment kinds there belong to the
+// known defect class inner-comment.
+func (g *gen) innerSameLine(slot string) bool {
+	if g.force != nil {
+		return slotClass(slot) == "inner-comment" && slotClass(g.force.slot) != "inner-comment"
+	}
+	return slotClass(slot) == "inner-comment" && g.class != "inner-comment"
 }
 
 var identPool = []string{"Foo", "Bar", "Baz", "Req", "Resp", "User", "userId", "a", "b1", "x_y", "Item", "T", "list", "Name", "ID"}
@@ -39,44 +100,101 @@ func (g *gen) ident() string {
 	return g.r.PickS(identPool...)
 }
 
-func (g *gen) commentText() string {
+// ---------------------------------------------------------------- comments
+
+// commentText: star = the text follows a '*' inside a block comment. The scanner ends a block comment at
+// the first '/' that comes after any '*' (finding scanner-block-comment-star-slash), so such texts must not
+// contain '/' unless g.starSlash is on.
+func (g *gen) commentText(star bool) string {
 	g.ncomment++
-	words := []string{"note", "todo: x", "a b  c", "type Foo {", "@handler h", "returns (X)", "\"q\"", "`r`", "µ", "100", "it's", "}", ")"}
+	words := []string{"note", "todo: x", "a b  c", "type Foo {", "@handler h", "returns (X)", "\"q\"", "`r`", "µ", "100", "it's", "}", ")", "a, b", "x*y", "-", "#"}
+	if !star || g.starSlash {
+		words = append(words, "/x/:id", "// nested", "a/b", "1 * 2 / 3")
+	}
 	if g.pct {
 		words = append(words, "100% sure", "%d %s")
 	}
-	return fmt.Sprintf("c%d %s", g.ncomment, g.r.PickS(words...))
+	t := fmt.Sprintf("c%d %s", g.ncomment, g.r.PickS(words...))
+	if star && !g.starSlash {
+		return t
+	}
+	if !g.starSlash && strings.Contains(t, "*") && strings.Contains(t[strings.Index(t, "*"):], "/") {
+		t = strings.ReplaceAll(t, "*", "+")
+	}
+	return t
 }
 
-func (g *gen) inlineComment() string {
-	t := g.commentText()
-	t = strings.ReplaceAll(t, "*/", "* /")
-	switch g.r.Intn(4) {
+func (g *gen) blockComment() string {
+	switch g.r.Intn(5) {
 	case 0:
-		return "/*" + t + "*/"
+		return "/*" + g.commentText(false) + "*/"
 	case 1:
-		return "/** " + t + " **/"
+		return "/** " + g.commentText(true) + " **/"
 	default:
-		return "/* " + t + " */"
+		return "/* " + g.commentText(false) + " */"
 	}
 }
 
-func (g *gen) wantComment() bool {
-	switch g.comments {
+func (g *gen) lineComment() string {
+	return "//" + g.r.PickS("", " ", " ", "/ ") + g.commentText(false)
+}
+
+func (g *gen) multiLineComment() string {
+	switch g.r.Intn(3) {
 	case 0:
-		return false
+		return "/*\n * " + g.commentText(true) + "\n */"
 	case 1:
-		return g.r.Chance(1, 5)
+		return "/* " + g.commentText(false) + "\n" + g.commentText(true) + " */"
 	default:
-		return g.r.Chance(1, 5)
+		return "/**\n\t" + g.commentText(true) + "\n\n*/"
 	}
 }
 
-// sp: separator that stays on the same line.
-func (g *gen) sp() string {
-	if g.comments == 2 && g.wantComment() {
-		return " " + g.inlineComment() + " "
+// want decides whether a comment of kind k is written at the slot.
+func (g *gen) want(slot string, k cmKind) bool {
+	yes := false
+	if g.force != nil {
+		yes = g.force.slot == slot && g.force.kind == k && g.r.Chance(3, 4)
+		if yes {
+			g.hits++
+		}
+	} else {
+		c := slotClass(slot)
+		if c == "inner-comment" && k == kIB && g.class != c {
+			c = "" // an inline block comment inside a type / body is part of the main stream
+		}
+		switch {
+		case g.comments == 0, c != g.class && c != "":
+		case k == kML && !g.multiLine:
+		case c != "":
+			// the route defect shows when a trailing comment is the only thing between the two tokens
+			if k == kTB || k == kTL || c != "route-comment" {
+				yes = g.r.Chance(1, 2)
+			} else {
+				yes = g.r.Chance(1, 8)
+			}
+		case g.comments == 1:
+			yes = g.r.Chance(1, 16)
+		default:
+			yes = g.r.Chance(1, 4)
+		}
 	}
+	if yes {
+		if g.slots == nil {
+			g.slots = map[string]int{}
+		}
+		g.slots[slot+"/"+kindNames[k]]++
+	}
+	return yes
+}
+
+func (g *gen) forcedLine(slot string) bool {
+	return g.force != nil && g.force.slot == slot && g.force.kind != kIB
+}
+
+// ---------------------------------------------------------------- separators
+
+func (g *gen) ws() string {
 	switch g.r.Intn(10) {
 	case 0:
 		return "  "
@@ -89,53 +207,92 @@ func (g *gen) sp() string {
 	}
 }
 
-// opt: separator that may be empty.
-func (g *gen) opt() string {
+func (g *gen) indent() string { return g.r.PickS("", "  ", "\t", "    ", "\t\t") }
+
+// s: separator that must stay on one line and may not be empty.
+func (g *gen) s(slot string) string {
+	if g.want(slot, kIB) {
+		return g.r.PickS(" ", "", "\t") + g.blockComment() + g.r.PickS(" ", "", "  ")
+	}
+	return g.ws()
+}
+
+// o: separator that must stay on one line and may be empty.
+func (g *gen) o(slot string) string {
+	if g.want(slot, kIB) {
+		return g.r.PickS(" ", "") + g.blockComment() + g.r.PickS(" ", "")
+	}
 	if g.r.Chance(2, 3) {
 		return ""
 	}
-	return g.sp()
+	return g.ws()
 }
 
-func (g *gen) indent() string { return g.r.PickS("", "  ", "\t", "    ", "\t\t") }
-
-// nl: separator containing at least one line break.
-func (g *gen) nl() string {
+// n: separator that contains a line break.
+func (g *gen) n(slot string) string {
 	var b strings.Builder
-	if g.wantComment() {
-		if g.r.Bool() {
-			b.WriteString(g.r.PickS(" ", "  ", "\t", "") + "//" + g.r.PickS("", " ") + g.commentText())
-		} else {
-			b.WriteString(" " + g.inlineComment())
+	if g.want(slot, kTL) {
+		b.WriteString(g.r.PickS(" ", "  ", "\t", "") + g.lineComment())
+	} else if g.want(slot, kTB) {
+		b.WriteString(g.r.PickS(" ", "", "\t") + g.blockComment())
+		if g.r.Chance(1, 4) && g.want(slot, kTL) {
+			b.WriteString(" " + g.lineComment())
 		}
 	}
-	b.WriteString(g.r.PickS("\n", "\n", "\n", "\r\n", " \n", "\n\n"))
-	for g.wantComment() {
-		b.WriteString(g.indent())
-		switch g.r.Intn(8) {
-		case 0, 1, 2, 3:
-			b.WriteString("// " + g.commentText())
-		case 4, 5, 6:
-			b.WriteString(g.inlineComment())
+	if tl := strings.Contains(b.String(), "//"); tl && !g.trailBlank {
+		// blanks (or a CR) behind a line comment become part of the comment (class comment-trailing-blank)
+		b.WriteString(g.r.PickS("\n", "\n", "\n\n"))
+	} else if tl {
+		b.WriteString(g.r.PickS(" \n", "\r\n", "\t\n", "  \n\n"))
+	} else {
+		b.WriteString(g.r.PickS("\n", "\n", "\n", "\r\n", " \n", "\n\n"))
+	}
+	for i := 0; i < 3; i++ {
+		switch {
+		case g.want(slot, kHL):
+			b.WriteString(g.indent() + g.lineComment())
+		case g.want(slot, kHB):
+			b.WriteString(g.indent() + g.blockComment())
+		case g.want(slot, kML):
+			b.WriteString(g.indent() + g.multiLineComment())
 		default:
-			b.WriteString("/*\n * " + g.commentText() + "\n */")
+			continue
 		}
-		b.WriteString(g.r.PickS("\n", "\n\n"))
+		if g.trailBlank && strings.HasSuffix(b.String(), "/") == false && g.r.Chance(1, 2) && strings.Contains(b.String()[strings.LastIndex(b.String(), "\n")+1:], "//") {
+			b.WriteString(g.r.PickS(" ", "\t", "\r"))
+		}
+		b.WriteString(g.r.PickS("\n", "\n", "\n\n"))
 	}
 	b.WriteString(g.indent())
+	if g.want(slot, kHS) {
+		b.WriteString(g.blockComment() + g.r.PickS(" ", "", "\t"))
+	}
 	return b.String()
 }
 
-// any: separator where a line break is as good as a space.
-func (g *gen) any() string {
-	if g.r.Chance(1, 5) {
-		if g.comments < 2 {
-			return g.r.PickS("\n", "\n\n", " \n") + g.indent()
-		}
-		return g.nl()
+// a: separator where a line break is as good as a space.
+func (g *gen) a(slot string) string {
+	if g.innerSameLine(slot) {
+		return g.s(slot)
 	}
-	return g.sp()
+	if g.forcedLine(slot) || g.r.Chance(1, 5) || (g.class != "" && slotClass(slot) == g.class && g.r.Chance(2, 3)) {
+		return g.n(slot)
+	}
+	return g.s(slot)
 }
+
+// ao: like a, but may also be empty.
+func (g *gen) ao(slot string) string {
+	if g.innerSameLine(slot) {
+		return g.o(slot)
+	}
+	if g.forcedLine(slot) || g.r.Chance(1, 6) || (g.class != "" && slotClass(slot) == g.class && g.r.Chance(2, 3)) {
+		return g.n(slot)
+	}
+	return g.o(slot)
+}
+
+// ---------------------------------------------------------------- literals
 
 func (g *gen) str() string {
 	parts := []string{"v1", "hello world", "a", "x/y.api", "user-api", "中文", "a // b", "/* x */", "it's", "1.0", "{}", "()", "@doc", "µs"}
@@ -145,6 +302,9 @@ func (g *gen) str() string {
 	if c20Zero && g.r.Chance(1, 14) {
 		return `""`
 	}
+	if g.ctlLit && g.r.Chance(1, 12) {
+		return `"` + g.r.PickS("a\tb", "\tx", "tab\t") + `"`
+	}
 	return `"` + g.r.PickS(parts...) + `"`
 }
 
@@ -152,11 +312,17 @@ func (g *gen) rawstr() string {
 	if c20Zero && g.r.Chance(1, 14) {
 		return "``"
 	}
+	if g.ctlLit && g.r.Chance(1, 8) {
+		return "`" + g.r.PickS("two\nlines", "a\tb", "x\n\ty", "x \ny", "x\n y", "\tx") + "`"
+	}
 	return "`" + g.r.PickS("raw", "a b", `say "hi"`, "x/y") + "`"
 }
 
 func (g *gen) tag() string {
 	n := g.r.PickS("id", "name", "a", "user_id")
+	if g.ctlLit && g.r.Chance(1, 6) {
+		return "`json:\"" + n + g.r.PickS("\t", "\t,optional", " \n x", "\n\ty") + "\"`"
+	}
 	switch g.r.Intn(5) {
 	case 0:
 		return "`json:\"" + n + "\"`"
@@ -171,31 +337,39 @@ func (g *gen) tag() string {
 	}
 }
 
-func (g *gen) dataType(depth int, allowStruct bool) string {
+// ---------------------------------------------------------------- data types
+
+// dataType returns the text and the kind of the outermost type constructor.
+func (g *gen) dataType(depth int, allowStruct bool) (string, string) {
 	n := 10
 	if depth > 3 {
 		n = 3
 	}
 	switch g.r.Intn(n) {
 	case 0, 1:
-		return g.r.PickS(baseTypes...)
+		return g.r.PickS(baseTypes...), "base"
 	case 2:
-		return g.ident()
+		return g.ident(), "base"
 	case 3:
-		return "interface{}"
+		return "interface{}", "iface"
 	case 4:
-		return "*" + g.opt() + g.dataType(depth+1, false)
+		t, _ := g.dataType(depth+1, false)
+		return "*" + g.ao("dt.star-elem") + t, "ptr"
 	case 5:
-		return "[" + g.opt() + "]" + g.opt() + g.dataType(depth+1, allowStruct && g.r.Chance(1, 4))
+		t, _ := g.dataType(depth+1, allowStruct && g.r.Chance(1, 4))
+		return "[" + g.ao("dt.slice.lb-rb") + "]" + g.ao("dt.slice.rb-elem") + t, "slice"
 	case 6:
-		return "[" + g.opt() + g.r.PickS("3", "0", "16", "...") + g.opt() + "]" + g.opt() + g.dataType(depth+1, false)
+		t, _ := g.dataType(depth+1, false)
+		return "[" + g.ao("dt.arr.lb-len") + g.r.PickS("3", "0", "16", "...") + g.ao("dt.arr.len-rb") + "]" + g.ao("dt.arr.rb-elem") + t, "arr"
 	case 7:
-		return "map" + g.opt() + "[" + g.opt() + g.dataType(depth+1, false) + g.opt() + "]" + g.opt() + g.dataType(depth+1, allowStruct && g.r.Chance(1, 6))
+		k, _ := g.dataType(depth+1, false)
+		v, _ := g.dataType(depth+1, allowStruct && g.r.Chance(1, 6))
+		return "map" + g.ao("dt.map.kw-lb") + "[" + g.ao("dt.map.lb-key") + k + g.ao("dt.map.key-rb") + "]" + g.ao("dt.map.rb-val") + v, "map"
 	default:
 		if allowStruct && depth < 3 {
-			return g.structType(depth + 1)
+			return g.structType(depth + 1), "struct"
 		}
-		return g.r.PickS(baseTypes...)
+		return g.r.PickS(baseTypes...), "base"
 	}
 }
 
@@ -207,103 +381,125 @@ func (g *gen) structType(depth int) string {
 		n = g.r.Pick(0, 1, 2)
 	}
 	if n == 0 {
-		b.WriteString(g.r.PickS("", " ", "\n"))
+		if g.forcedLine("struct.empty") || g.r.Chance(1, 3) {
+			b.WriteString(g.ao("struct.empty"))
+		}
 		b.WriteString("}")
 		return b.String()
 	}
 	oneLine := g.r.Chance(1, 10)
+	after := ""
 	for i := 0; i < n; i++ {
 		anonNoTag := false
-		if oneLine && i == 0 {
-			b.WriteString(g.sp())
-		} else if i == 0 {
-			b.WriteString(g.nl())
+		if i == 0 {
+			if oneLine {
+				b.WriteString(g.s("struct.lb-field"))
+			} else {
+				b.WriteString(g.n("struct.lb-field"))
+			}
+		}
+		tagged := func(kind string, p1, p2 int) {
+			after = kind
+			if g.r.Chance(p1, p2) {
+				b.WriteString(g.a("field.type-tag."+kind) + g.tag())
+				after = "tag"
+			}
 		}
 		switch g.r.Intn(9) {
 		case 0: // anonymous
 			b.WriteString(g.ident())
-			if g.r.Chance(1, 4) {
-				b.WriteString(g.sp() + g.tag())
-			} else {
-				anonNoTag = true
-			}
+			tagged("anon", 1, 4)
+			anonNoTag = after == "anon"
 		case 1: // anonymous pointer
-			b.WriteString("*" + g.opt() + g.ident())
-			if g.r.Chance(1, 4) {
-				b.WriteString(g.sp() + g.tag())
-			}
+			b.WriteString("*" + g.ao("field.star-anon") + g.ident())
+			tagged("anonptr", 1, 4)
 		case 2: // several names
-			b.WriteString(g.ident() + g.opt() + "," + g.opt() + g.ident())
+			b.WriteString(g.ident() + g.o("field.name-comma") + "," + g.ao("field.comma-name") + g.ident())
 			if g.r.Chance(1, 3) {
-				b.WriteString(g.opt() + "," + g.opt() + g.ident())
+				b.WriteString(g.o("field.name-comma") + "," + g.ao("field.comma-name") + g.ident())
 			}
-			b.WriteString(g.sp() + g.dataType(depth, false))
-			if g.r.Bool() {
-				b.WriteString(g.sp() + g.tag())
-			}
+			t, k := g.dataType(depth, false)
+			b.WriteString(g.s("field.name-type") + t)
+			tagged(k, 1, 2)
 		case 3: // nested struct
-			b.WriteString(g.ident() + g.sp() + g.dataType(depth, true))
-			if g.r.Chance(1, 3) {
-				b.WriteString(g.sp() + g.tag())
-			}
+			t, k := g.dataType(depth, true)
+			b.WriteString(g.ident() + g.s("field.name-type") + t)
+			tagged(k, 1, 3)
 		default:
-			b.WriteString(g.ident() + g.sp() + g.dataType(depth, false))
-			if g.r.Chance(2, 3) {
-				b.WriteString(g.sp() + g.tag())
-			}
+			t, k := g.dataType(depth, false)
+			b.WriteString(g.ident() + g.s("field.name-type") + t)
+			tagged(k, 2, 3)
+		}
+		slot := "struct.field-field." + after
+		if i == n-1 {
+			slot = "struct.field-rb." + after
 		}
 		if oneLine && !anonNoTag {
-			b.WriteString(g.sp())
+			b.WriteString(g.s(slot))
 		} else {
-			b.WriteString(g.nl())
+			b.WriteString(g.n(slot))
 		}
 	}
 	b.WriteString("}")
 	return b.String()
 }
 
-func (g *gen) typeExpr() string {
+// typeExpr returns the text and the kind of its data type.
+func (g *gen) typeExpr() (string, string) {
 	var b strings.Builder
 	b.WriteString(g.ident())
+	slot := "texpr.name-type"
 	if g.r.Chance(1, 5) {
-		b.WriteString(g.sp() + "=")
+		b.WriteString(g.a("texpr.name-eq") + "=")
+		slot = "texpr.eq-type"
 	}
-	b.WriteString(g.sp())
+	b.WriteString(g.a(slot))
+	kind := "struct"
 	if g.r.Chance(3, 4) {
 		b.WriteString(g.structType(0))
 	} else {
-		b.WriteString(g.dataType(0, true))
+		t, k := g.dataType(0, true)
+		b.WriteString(t)
+		kind = k
 	}
-	return b.String()
+	return b.String(), kind
 }
 
-func (g *gen) typeStmt() string {
+func (g *gen) typeStmt() (string, string) {
 	if g.r.Chance(2, 3) {
-		return "type" + g.sp() + g.typeExpr()
+		t, k := g.typeExpr()
+		return "type" + g.a("type.kw-name") + t, "type." + k
 	}
 	var b strings.Builder
-	b.WriteString("type" + g.any() + "(")
+	b.WriteString("type" + g.a("typeg.kw-lp") + "(")
 	n := g.r.Pick(0, 1, 2, 3)
+	prev := "typeg.lp"
 	for i := 0; i < n; i++ {
-		b.WriteString(g.nl() + g.typeExpr())
+		t, k := g.typeExpr()
+		b.WriteString(g.n(prev+"-expr") + t)
+		prev = "typeg.expr." + k
 	}
-	b.WriteString(g.nl() + ")")
-	return b.String()
+	b.WriteString(g.n(prev+"-rp") + ")")
+	return b.String(), "typeg"
 }
 
-func (g *gen) kvList(keys []string, val func() string) string {
+// ---------------------------------------------------------------- key/value lists, info, import
+
+func (g *gen) kvList(p string, keys []string, val func() string) string {
 	var b strings.Builder
 	b.WriteString("(")
 	n := g.r.Pick(0, 1, 2, 3, 4)
+	prev := p + ".lp"
 	for i := 0; i < n; i++ {
-		b.WriteString(g.any() + g.r.PickS(keys...) + g.opt() + ":" + g.any() + val())
+		b.WriteString(g.a(prev+"-key") + g.r.PickS(keys...) + g.ao(p+".key-colon") + ":" + g.a(p+".colon-val") + val())
+		prev = p + ".val"
 	}
-	b.WriteString(g.any() + ")")
+	b.WriteString(g.a(prev+"-rp") + ")")
 	return b.String()
 }
 
 func (g *gen) infoStmt() string {
-	return "info" + g.any() + g.kvList([]string{"title", "desc", "author", "email", "version", "Title"}, func() string {
+	return "info" + g.a("info.kw-lp") + g.kvList("info", []string{"title", "desc", "author", "email", "version", "Title"}, func() string {
 		if g.r.Chance(1, 5) {
 			return g.rawstr()
 		}
@@ -311,33 +507,38 @@ func (g *gen) infoStmt() string {
 	})
 }
 
-func (g *gen) importStmt() string {
+func (g *gen) importStmt() (string, string) {
 	if g.r.Bool() {
-		return "import" + g.any() + g.str()
+		return "import" + g.a("import.kw-val") + g.str(), "import"
 	}
 	var b strings.Builder
-	b.WriteString("import" + g.any() + "(")
+	b.WriteString("import" + g.a("importg.kw-lp") + "(")
 	n := g.r.Pick(0, 1, 2, 3)
+	prev := "importg.lp"
 	for i := 0; i < n; i++ {
-		b.WriteString(g.any() + g.str())
+		b.WriteString(g.a(prev+"-val") + g.str())
+		prev = "importg.val"
 	}
-	b.WriteString(g.any() + ")")
-	return b.String()
+	b.WriteString(g.a(prev+"-rp") + ")")
+	return b.String(), "importg"
 }
+
+// ---------------------------------------------------------------- service
 
 func (g *gen) atServerValue() string {
 	id := func() string { return g.r.PickS("a", "user", "v1", "Auth", "Cors", "admin", "api") }
+	x := func() string { return g.ao("srv.value-inner") }
 	switch g.r.Intn(9) {
 	case 0:
 		return id()
 	case 1:
-		return id() + g.opt() + "," + g.opt() + id()
+		return id() + x() + "," + x() + id()
 	case 2:
 		return id() + "-" + id()
 	case 3:
 		return "/" + id() + "/" + id()
 	case 4:
-		return "/" + id() + "-" + id() + g.opt() + "/" + g.opt() + id()
+		return "/" + id() + "-" + id() + x() + "/" + g.r.PickS("", " ") + id()
 	case 5:
 		return id() + "/" + id()
 	case 6:
@@ -353,15 +554,28 @@ func (g *gen) path() string {
 	var b strings.Builder
 	n := g.r.Pick(1, 1, 2, 3, 4)
 	if g.r.Chance(1, 12) {
-		return "/"
+		return "/ " // the blank keeps a following comment from merging with the '/'
+	}
+	x := func() string {
+		if g.force != nil && g.force.slot == "path.inner" {
+			return g.o("path.inner")
+		}
+		if g.comments == 2 && g.r.Chance(1, 12) {
+			return g.o("path.inner")
+		}
+		return ""
 	}
 	for i := 0; i < n; i++ {
+		if i > 0 {
+			b.WriteString(x())
+		}
 		b.WriteString("/")
 		if g.tricky && g.r.Chance(1, 10) {
 			b.WriteString(" ")
 		}
 		if g.r.Chance(1, 3) {
-			b.WriteString(":")
+			// a comment right after the '/' is rejected by the parser (parsePathExpr)
+			b.WriteString(":" + x())
 		}
 		if g.r.Chance(1, 8) {
 			b.WriteString(g.r.PickS("1", "42", "2024"))
@@ -369,126 +583,191 @@ func (g *gen) path() string {
 			b.WriteString(g.r.PickS("user", "list", "id", "v1", "a", "info", "get"))
 		}
 		if g.r.Chance(1, 5) {
-			b.WriteString("-" + g.r.PickS("x", "name", "id"))
+			b.WriteString(x() + "-" + x() + g.r.PickS("x", "name", "id"))
 		}
 	}
 	if g.r.Chance(1, 12) {
-		b.WriteString("/")
+		b.WriteString(x() + "/ ")
 	}
 	return b.String()
 }
 
-func (g *gen) body() string {
+func (g *gen) body(p string) string {
 	var b strings.Builder
-	b.WriteString("(" + g.opt())
+	b.WriteString("(")
 	if g.r.Chance(1, 10) {
-		b.WriteString(")")
+		b.WriteString(g.ao(p+".lp-rp") + ")")
 		return b.String()
 	}
+	b.WriteString(g.ao(p + ".lp-x"))
 	switch g.r.Intn(5) {
 	case 0:
-		b.WriteString("[" + g.opt() + "]" + g.opt())
+		b.WriteString("[" + g.ao(p+".inner") + "]" + g.ao(p+".inner"))
 	case 1:
-		b.WriteString("*" + g.opt())
+		b.WriteString("*" + g.ao(p+".inner"))
 	case 2:
 		b.WriteString("[]*")
 	}
 	b.WriteString(g.r.PickS("Req", "Resp", "User", "string", "int64", "Foo"))
-	b.WriteString(g.opt() + ")")
+	b.WriteString(g.ao(p+".x-rp") + ")")
 	return b.String()
 }
 
 func (g *gen) serviceStmt() string {
 	var b strings.Builder
 	if g.r.Chance(1, 2) {
-		b.WriteString("@server" + g.any())
-		b.WriteString(g.kvList([]string{"group", "prefix", "jwt", "middleware", "timeout", "maxBytes", "summary"}, g.atServerValue))
-		b.WriteString(g.nl())
+		b.WriteString("@server" + g.a("srv.kw-lp"))
+		b.WriteString(g.kvList("srv", []string{"group", "prefix", "jwt", "middleware", "timeout", "maxBytes", "summary"}, g.atServerValue))
+		b.WriteString(g.n("srv.rp-service"))
 	}
-	b.WriteString("service" + g.sp() + g.r.PickS("foo", "user", "svc_1"))
+	b.WriteString("service" + g.a("svc.kw-name") + g.r.PickS("foo", "user", "svc_1"))
 	if g.r.Bool() {
-		b.WriteString("-api")
+		b.WriteString(g.ao("svc.name-dash") + "-" + g.ao("svc.dash-api") + "api")
 	}
 	n := g.r.Pick(0, 1, 2, 3, 5)
+	if g.class == "empty-body-comment" && g.r.Chance(2, 3) {
+		n = 0
+	}
+	b.WriteString(g.a("svc.name-lb") + "{")
 	if n == 0 {
-		// comments inside an empty service body are a known formatter defect (see props/C20.json)
-		b.WriteString(g.r.PickS(" ", "\n") + "{" + g.r.PickS("", " ", "\n", "\n\n") + "}")
+		if g.forcedLine("svc.empty-body") || g.class == "empty-body-comment" || g.r.Chance(2, 3) {
+			b.WriteString(g.ao("svc.empty-body"))
+		}
+		b.WriteString("}")
 		return b.String()
 	}
-	b.WriteString(g.any() + "{")
+	prev := "svc.lb"
 	for i := 0; i < n; i++ {
-		b.WriteString(g.nl())
+		b.WriteString(g.n(prev + "-item"))
 		switch g.r.Intn(4) {
 		case 0:
-			b.WriteString("@doc" + g.sp() + g.str() + g.nl())
+			b.WriteString("@doc" + g.a("doc.kw-val") + g.str() + g.n("doc.val-handler"))
 		case 1:
-			b.WriteString("@doc" + g.any() + g.kvList([]string{"summary", "description"}, g.str) + g.nl())
+			b.WriteString("@doc" + g.a("doc.kw-lp") + g.kvList("doc", []string{"summary", "description"}, g.str) + g.n("doc.rp-handler"))
 		}
-		b.WriteString("@handler" + g.sp() + g.r.PickS("getUser", "List", "h1", "create_item") + g.nl())
-		b.WriteString(g.r.PickS(methods...) + g.sp() + g.path())
+		b.WriteString("@handler" + g.a("handler.kw-name") + g.r.PickS("getUser", "List", "h1", "create_item") + g.n("handler.name-method"))
+		b.WriteString(g.r.PickS(methods...) + g.a("route.method-path") + g.path())
+		last := "path"
 		if g.r.Chance(2, 3) {
-			b.WriteString(g.any() + g.body())
+			b.WriteString(g.a("route.path-req") + g.body("req"))
+			last = "req"
 		}
 		if g.r.Chance(2, 3) {
-			b.WriteString(g.any() + "returns" + g.any() + g.body())
+			b.WriteString(g.a("route."+last+"-returns") + "returns" + g.a("route.returns-resp") + g.body("resp"))
+			last = "resp"
 		}
 		if g.r.Chance(1, 8) {
-			b.WriteString(g.opt() + ";")
+			b.WriteString(g.ao("route."+last+"-semi") + ";")
+			last = "semi"
 		}
+		prev = "svc.item." + last
 	}
-	b.WriteString(g.nl() + "}")
+	b.WriteString(g.n(prev+"-rb") + "}")
 	return b.String()
 }
 
 func (g *gen) syntaxStmt() string {
-	return "syntax" + g.any() + "=" + g.any() + g.r.PickS(`"v1"`, `"v2"`)
+	return "syntax" + g.a("syntax.kw-eq") + "=" + g.a("syntax.eq-val") + g.r.PickS(`"v1"`, `"v2"`)
 }
+
+// ---------------------------------------------------------------- program
 
 // program returns the chunks of one program.
 func (g *gen) program() []string {
 	var chunks []string
-	add := func(s string) { chunks = append(chunks, s+g.nl()) }
-	if g.wantComment() {
-		chunks = append(chunks, "// "+g.commentText()+"\n")
+	add := func(s, kind string) {
+		chunks = append(chunks, s, g.n("top."+kind))
+	}
+	stmt := func(k int) {
+		switch k {
+		case 0:
+			add(g.syntaxStmt(), "syntax")
+		case 1:
+			add(g.infoStmt(), "info")
+		case 2:
+			s, kind := g.importStmt()
+			add(s, kind)
+		case 3:
+			s, kind := g.typeStmt()
+			add(s, kind)
+		default:
+			add(g.serviceStmt(), "service")
+		}
+	}
+	// comments in front of the first token
+	var head strings.Builder
+	for i := 0; i < 2; i++ {
+		switch {
+		case g.want("top.first", kHL):
+			head.WriteString(g.lineComment() + "\n")
+		case g.want("top.first", kHB):
+			head.WriteString(g.blockComment() + g.r.PickS("\n", "\n\n"))
+		case g.want("top.first", kML):
+			head.WriteString(g.multiLineComment() + "\n")
+		}
+	}
+	if g.want("top.first", kHS) {
+		head.WriteString(g.blockComment() + " ")
+	}
+	if head.Len() > 0 {
+		chunks = append(chunks, head.String())
+	}
+	switch g.only {
+	case "":
+	case "syntax":
+		stmt(0)
+	case "info":
+		stmt(1)
+	case "import":
+		stmt(2)
+	case "type":
+		stmt(3)
+	case "service":
+		stmt(4)
+	}
+	if g.only != "" {
+		if g.r.Bool() {
+			s, kind := g.typeStmt()
+			add(s, kind)
+		}
+		return g.finish(chunks)
 	}
 	if g.r.Chance(4, 5) && !g.tiny {
-		add(g.syntaxStmt())
+		stmt(0)
 	}
 	if g.r.Chance(1, 2) && !g.tiny {
-		add(g.infoStmt())
+		stmt(1)
 	}
 	for i := g.r.Intn(3); i > 0 && !g.tiny; i-- {
-		add(g.importStmt())
+		stmt(2)
 	}
 	n := g.r.Pick(0, 1, 2, 3, 4, 6)
 	if g.tiny {
 		n = g.r.Pick(1, 1, 2)
 	}
 	for i := 0; i < n; i++ {
-		switch g.r.Intn(7) {
+		switch g.r.Intn(6) {
 		case 0, 1, 2:
-			add(g.typeStmt())
+			stmt(3)
 		case 3, 4:
-			add(g.serviceStmt())
-		case 5:
-			if g.r.Bool() {
-				add(g.importStmt())
-			} else {
-				add(g.infoStmt())
-			}
+			stmt(4)
 		default:
-			if g.comments > 0 {
-				chunks = append(chunks, "/* "+g.commentText()+" */\n")
-			} else {
-				add(g.typeStmt())
-			}
+			stmt(g.r.Pick(1, 2))
 		}
 	}
-	if len(chunks) == 0 {
-		add(g.typeStmt())
+	if len(chunks) == 0 || (len(chunks) == 1 && head.Len() > 0) {
+		stmt(3)
 	}
-	if g.wantComment() {
-		chunks = append(chunks, "// trailing "+g.commentText())
+	return g.finish(chunks)
+}
+
+// finish: the separator after the last statement ends the file; comments in it have no token to attach to.
+func (g *gen) finish(chunks []string) []string {
+	if n := len(chunks); n > 0 && g.r.Chance(1, 3) {
+		// no line break at the end of the file
+		if i := strings.IndexAny(chunks[n-1], "\r\n"); i >= 0 && !strings.Contains(chunks[n-1], "/") {
+			chunks[n-1] = ""
+		}
 	}
 	return chunks
 }
@@ -540,8 +819,28 @@ func (g *gen) mutate(s string) string {
 	}
 }
 
-func sectionOf(kind string, id int, cm int, chunks []string) verifh.Section {
-	s := verifh.Section{Cfg: fmt.Sprintf("kind=%s id=%d cm=%d", kind, id, cm)}
+func slotList(m map[string]int) string {
+	if len(m) == 0 {
+		return "-"
+	}
+	var ks []string
+	for k := range m {
+		ks = append(ks, k)
+	}
+	sort.Strings(ks)
+	return strings.Join(ks, ",")
+}
+
+func sectionOf(kind string, id int, g *gen, chunks []string) verifh.Section {
+	class := g.class
+	if class == "" {
+		class = "main"
+	}
+	sure := 0
+	if kind != "mut" && !g.tricky {
+		sure = 1 // no keyword-like identifiers: valid by construction
+	}
+	s := verifh.Section{Cfg: fmt.Sprintf("kind=%s id=%d cm=%d class=%s sure=%d slots=%s", kind, id, g.comments, class, sure, slotList(g.slots))}
 	for _, c := range chunks {
 		if c == "" {
 			continue
@@ -552,9 +851,15 @@ func sectionOf(kind string, id int, cm int, chunks []string) verifh.Section {
 	return s
 }
 
+// c20Classes: the known defect classes of the unchanged formatter (each one is a finding, see props/C20.json).
+var c20Classes = []string{"route-comment", "empty-body-comment", "inner-comment", "comment-trailing-blank", "star-slash", "ml-comment", "ctl-literal"}
+
 func c20Gen(r *verifh.Rng) []verifh.Section {
+	if os.Getenv("C20_PROBE") != "" {
+		return c20SweepSections(r, 40, "probe")
+	}
 	var secs []verifh.Section
-	nprog := verifh.Scale(260, 6000)
+	nprog := verifh.Scale(300, 6000)
 	for i := 0; i < nprog; i++ {
 		g := &gen{r: r.Fork()}
 		switch i % 8 {
@@ -563,16 +868,13 @@ func c20Gen(r *verifh.Rng) []verifh.Section {
 		case 2, 3, 4:
 			g.comments = 1
 		default:
-			g.comments = 1
-			if c20CommentsAnywhere {
-				g.comments = 2
-			}
+			g.comments = 2
 		}
 		g.tricky = i%3 == 0
 		g.tiny = i%4 != 0
 		g.pct = c20Pct && i%5 == 0
 		chunks := g.program()
-		secs = append(secs, sectionOf("valid", i, g.comments, chunks))
+		secs = append(secs, sectionOf("valid", i, g, chunks))
 		if i%2 == 0 {
 			m := append([]string(nil), chunks...)
 			k := g.r.Range(1, 2)
@@ -580,18 +882,41 @@ func c20Gen(r *verifh.Rng) []verifh.Section {
 				x := g.r.Intn(len(m))
 				m[x] = g.mutate(m[x])
 			}
-			secs = append(secs, sectionOf("mut", i, g.comments, m))
+			secs = append(secs, sectionOf("mut", i, g, m))
 		}
 	}
+	nclass := verifh.Scale(30, 500)
+	for _, class := range c20Classes {
+		for i := 0; i < nclass; i++ {
+			g := &gen{r: r.Fork(), class: class, comments: 1 + i%2, tiny: i%3 != 0}
+			switch class {
+			case "route-comment", "empty-body-comment":
+				if i%4 != 0 {
+					g.only = "service"
+				}
+			case "star-slash":
+				g.starSlash = true
+			case "comment-trailing-blank":
+				g.trailBlank = true
+				g.comments = 2
+			case "ml-comment":
+				g.multiLine = true
+			case "ctl-literal":
+				g.ctlLit = true
+				g.comments = i % 2
+			}
+			secs = append(secs, sectionOf("valid", i, g, g.program()))
+		}
+	}
+	// every position x every comment form, in isolation
+	secs = append(secs, c20SweepSections(r.Fork(), verifh.Scale(2, 8), "sweep")...)
+	// the empty source
+	secs = append(secs, verifh.Section{Cfg: "kind=valid id=0 cm=0 class=empty-source sure=0 slots=-", Ops: []string{"fmt"}})
 	return secs
 }
-
-// c20CommentsAnywhere: also put comments between any two tokens of a statement (the formatter loses or
-// misplaces many of those, see the findings in props/C20.json); off by default.
-var c20CommentsAnywhere = false
 
 // c20Pct: generate '%' inside strings and comments (exercises Writer.WriteText).
 var c20Pct = true
 
-// c20Zero: generate zero strings ("" and ``), which the formatter drops together with their statement.
+// c20Zero: generate zero strings ("" and “), which the formatter drops together with their statement.
 var c20Zero = true
